@@ -3,7 +3,7 @@
 # Confirms a seeded change independently: (a) suite passes with the patch, (b) demo fails with it,
 # (c) demo passes without it; then runs the quick check of <PROP> against the patched copy.
 set -u
-SRC="$1"; PROP="$2"; shift 2; DEMOFLAGS="$*"
+SRC="$(cd "$1" && pwd)"; PROP="$2"; shift 2; DEMOFLAGS="$*"
 VERIF="$(cd "$(dirname "$0")/.." && pwd)"
 export GOFLAGS=-mod=mod GOPROXY=off GOSUMDB=off GOTOOLCHAIN=local
 S="$(mktemp -d /tmp/verif-seed-XXXXXX)"; trap 'rm -rf "$S"' EXIT
